@@ -70,9 +70,23 @@ def _run_variant(args):
         except AnalysisError as e:
             if variant['expect'] == 'fire' and variant.get('error_ok'):
                 return dict(name=name, status='ok', detail='analysis refuses the variant: %s' % e, t=time.time() - t0)
+            if variant.get('refused_ok'):
+                # a recorded limitation (benign/<id>/meta.json analysis_refuses): the check cannot read this restructuring and says so (exit 2) -
+                # not a verdict, and never a report against correct code
+                return dict(name=name, status='skipped', why='recorded limitation - the analysis refuses this benign restructuring: %s' % str(e)[:160], t=time.time() - t0)
             return dict(name=name, status='failed', why='analysis error on variant: %s' % e, t=time.time() - t0)
         base_keys = set((f[0], f[1]) for f in base)
         new = sorted(f for f in got if (f[0], f[1]) not in base_keys)
+        # a finding of the unchanged tree whose construct moved to another function of the same class is the same finding (pv/report.py)
+        def _parts(key):
+            p_ = key.split('|')
+            return (p_[0], p_[1].split('.')[0], '|'.join(p_[2:])) if len(p_) >= 3 and '.' in p_[1] else None
+        got_keys = set(f[1] for f in got)
+        gone = [b for b in base if b[1] not in got_keys and _parts(b[1])]
+        for b in gone:
+            same = [f for f in new if _parts(f[1]) == _parts(b[1])]
+            if len(same) == 1:
+                new.remove(same[0])
         if variant['expect'] == 'silent':
             if new:
                 return dict(name=name, status='failed', why='a semantics-preserving rewrite raised %s' % new[:3], t=time.time() - t0)
@@ -130,12 +144,19 @@ def run_selftest(ctx):
                 if not any(x.startswith(prop + '.') for x in by):
                     ctx.note('seeded defect %s is not reported by the rules of %s (see DESIGN.md section 11.6)' % (sid, prop))
                     continue
+            refused_ok = False
             if kind_ == 'benign':
                 with open(pth) as fh:
                     touched = set(l[6:].strip() for l in fh if l.startswith('+++ b/'))
                 if not (touched & consulted):
                     continue
-            variants.append(dict(name='%s/%s' % (kind_, sid), kind='patch', path=pth, expect=expect, rule=None, must_name=''))
+                try:
+                    import json
+                    with open(os.path.join(d0, sid, 'meta.json')) as fh:
+                        refused_ok = prop in (json.load(fh).get('analysis_refuses') or [])
+                except (OSError, ValueError):
+                    refused_ok = False
+            variants.append(dict(name='%s/%s' % (kind_, sid), kind='patch', path=pth, expect=expect, rule=None, must_name='', refused_ok=refused_ok))
     base = _findings_of(prop, ctx.src)
     for v in variants:
         v['_base'] = base
